@@ -294,7 +294,7 @@ func (r *c06Run) waitArrival(k int, ctx string) *c06Verdict {
 		case <-tick.C:
 			if r.back.Avail() {
 				n, _, _ := r.cs.count()
-				return c06Viol("early-recovery", "%s: backend back in rotation after %d probes (script %q, SuccNum=%d: needs %d)", ctx, n, r.sc.Rounds[0].Script, r.m.succNum, c06RecoveryIndex(r.cs.scriptCopy(), r.m.succNum))
+				return c06Viol("early-recovery", "%s: backend back in rotation after %d probes in total (outcomes so far %q, X = earlier rounds; SuccNum=%d)", ctx, n, headStr(r.cs.scriptCopy(), n), r.m.succNum)
 			}
 		case <-dl.C:
 			return c06Inconclusive("deadline waiting for probe arrival")
@@ -353,7 +353,7 @@ func (r *c06Run) round(ri int, rd c06Round) (done bool, v *c06Verdict) {
 		}
 		return true, r.afterRelease(base, tcpBase, 0, ctx("crossing after removal"))
 	}
-	if v = r.checkCheckers(ctx("after crossing"), true); v != nil {
+	if v = r.checkCheckers(ctx("after crossing"), false); v != nil { // a goroutine that has not run yet shows no entry frame
 		return true, v
 	}
 	if r.sc.Schem == "tcp" {
@@ -707,8 +707,7 @@ func c06Check(tb ev.TB, rec *ev.Rec, srv *c06Server, sc c06Scenario, origin stri
 
 func TestC06(t *testing.T) {
 	rec := ev.New("C06", "scenarios: FailNum 1..5, SuccNum 1..4, CheckInterval 1..3 ms, 1..2 rounds of request outcomes (S/F, optional concurrent crossing by 2..8 goroutines, outcomes of in-flight requests while out of rotation), scripted probe outcomes served by a harness server that holds every probe, removal by reload while in rotation / while a probe is held / between probes; exhaustive sweeps of short outcome sequences and probe scripts. non-trivial: the consumed part of a probe script contains a fail after >=1 pass (succNum reset) or the crossing is concurrent. distinct by scenario encoding")
-	backend.SetCheckConfFetcher(c06Fetch)
-	defer backend.SetCheckConfFetcher(nil)
+	backend.SetCheckConfFetcher(c06Fetch) // once per process, like NewBalTable in bfe
 	srv := newC06Server(t)
 	defer srv.ln.Close()
 	rec.Set("race_detector", raceEnabled)
